@@ -31,6 +31,7 @@ Definition is_arith (o : op) : bool :=
   match o with OAdd | OSub | OMul | ODiv | OMax | OMin | OMaxWrap => true | _ => false end.
 Definition is_cmp (o : op) : bool := match o with OEquiv | OGt | OLt => true | _ => false end.
 Definition is_logic (o : op) : bool := match o with OAnd | OOr => true | _ => false end.
+Definition is_valop (o : op) : bool := is_arith o || is_cmp o || is_logic o.
 
 (* type of an expression, threading the environment (a bind of a new name declares a local) *)
 Fixpoint ty_expr (g : tenv) (e : expr) : option (vty * tenv) :=
@@ -154,11 +155,14 @@ Definition direct_var (e : expr) : option name :=
   | _ => None
   end.
 
+Definition is_condop (o : op) : bool := match o with OIf | ONotIf | OEwma => true | _ => false end.
+
 Fixpoint clobbers (e : expr) : bool :=
   match e with
-  | Sexp OBind (Atom (PName _)) (Sexp o c v) =>
+  | Sexp OBind (Atom (PName _)) ((Sexp o c v) as w) =>
     (* if / !if / ewma under a bind: the operands of the inner operator *)
-    match direct_var c with Some x => assigns v x | None => false end || clobbers c || clobbers v
+    if is_condop o then match direct_var c with Some x => assigns v x | None => false end || clobbers c || clobbers v
+    else clobbers w
   | Sexp OBind (Atom (PName _)) v => clobbers v
   | Sexp _ l r =>
     match direct_var l with Some x => assigns r x | None => false end || clobbers l || clobbers r
